@@ -27,7 +27,7 @@ def _events(args):
         if lvl.isidentifier():
             forms.append(f"{v}[{lvl}]")
         text = rng.choice(forms) + " ~ " + rhs_text
-        st, dm = design.build(text, w.df)
+        st, dm = design.build(text, w.df, extra_namespace=dict(w.namespace))
         ev = dict(base, kind="build", used=sorted(set(used) | {v}), status="ok", resp=dict(gen.EMPTY), resp_expected=True, tag="subset")
         if st != "ok":
             ev["status"] = type(dm).__name__
@@ -97,7 +97,7 @@ def _events(args):
         out.append((ev, t1 + "  vs  " + t2))
     elif kind == "refuse":
         text = rng.choice(["y + x ~ ", "y:x ~ ", "y*x ~ ", "(y|g) ~ ", "y - x + z ~ ", "f + g ~ "]) + rhs_text
-        st, dm = design.build(text, w.df)
+        st, dm = design.build(text, w.df, extra_namespace=dict(w.namespace))
         out.append(({"id": idx, "kind": "refuse", "status": "ok" if st == "ok" else type(dm).__name__, "tag": "multi_term_response"}, text))
     else:
         text = rhs_text
